@@ -20,9 +20,10 @@
       [reachable_tracks_no_goit_path]
    6. (I3) [restore_spares_goit] [reset_spares_goit] [goit_dir_never_overwritten]
    7. (I2) [status_step_never_lists_excluded]
-   8. examples by computation, including [c17_newline_escapes]: a file
-      ".goit/a\nb" IS staged by `add .` (Go's `.` does not match a newline), which
-      is why [goit_path] excludes names with a newline after ".goit/". *)
+   8. examples by computation, including [c17_newline_no_longer_escapes]: a
+      file ".goit/a\nb" is NOT staged by `add .` (the patterns are compiled with
+      the `s` flag, so `.` matches a newline), which is why [goit_path] has no
+      clause about newlines. *)
 From Coq Require Import Strings.String Strings.Byte.
 From Coq Require Import List Bool NArith ZArith Arith Lia Sorted.
 From Goit Require Import Bytes Sha1 Obj Tree Index Regex GoRegex Commit Reflog Config Ignore World Repo.
@@ -190,17 +191,28 @@ Proof.
 Qed.
 
 (* what the model calls "inside Goit's directory": a component ".goit" with
-   something below it and no newline after it -- exactly what the built-in
-   pattern `\.goit/.*` matches at a component boundary *)
+   something (any bytes at all) below it -- exactly what the built-in pattern
+   `\.goit/.*`, compiled with the `s` flag, matches at a component boundary
+   ([goit_path_iff_builtin]) *)
 Definition goit_path (q : bytes) : Prop :=
-  exists a rest, q = a ++ str ".goit/" ++ rest /\ (a = [] \/ last a x00 = c_slash) /\ ~ In c_nl rest.
+  exists a rest, q = a ++ str ".goit/" ++ rest /\ (a = [] \/ last a x00 = c_slash).
 
-Lemma goit_path_top : forall rest, ~ In c_nl rest -> goit_path (str ".goit/" ++ rest).
-Proof. intros rest H. exists [], rest. split; [reflexivity|]. split; [left; reflexivity | exact H]. Qed.
+Lemma goit_path_top : forall rest, goit_path (str ".goit/" ++ rest).
+Proof. intros rest. exists [], rest. split; [reflexivity | left; reflexivity]. Qed.
+
+Lemma goit_path_iff_builtin : forall q, goit_path q <-> ign_match [ign_builtin] q = true.
+Proof.
+  intro q. split.
+  - intros (a & rest & -> & Ha). apply builtin_excludes_at. exact Ha.
+  - intro Hm. exact (builtin_only q Hm).
+Qed.
+
+Lemma goit_path_iff_under_named : forall q, goit_path q <-> under_named [str ".goit"] q.
+Proof. intro q. rewrite goit_path_iff_builtin. apply builtin_under_named_iff. Qed.
 
 Lemma goit_path_ignored : forall w pats q, In ign_builtin pats -> goit_path q -> ignored w pats q = true.
 Proof.
-  intros w pats q Hin (a & rest & -> & Ha & Hnl). apply ignored_goit_at; assumption.
+  intros w pats q Hin (a & rest & -> & Ha). apply ignored_goit_at; assumption.
 Qed.
 
 Lemma passed_not_goit : forall w pats q, In ign_builtin pats -> passed w pats q -> ~ goit_path q.
@@ -1603,27 +1615,40 @@ Example c17_plain_staged :
   paths (idx_of (run c17_plain w_empty)) = [str "a.txt"; str "b.log"; str "out/x"; str "x.goit/f"].
 Proof. vm_compute. reflexivity. Qed.
 
-(* The newline clause of [goit_path] cannot be dropped.  Go's `.` does not
-   match '\n' and `$` only matches at the very end, so the built-in pattern
-   `\.goit/.*` does not match ".goit/a\nb": a file of that name (which only
-   the user can have created: none of Goit's own files has a newline in its
-   name) IS staged by `add .` -- in the model and, the model being a
-   transcription of IsIncluded, in the program. *)
+(* [goit_path] has no newline clause.  The patterns are compiled with the `s`
+   flag, so the `.` of the built-in pattern `\.goit/.*` matches '\n' as well:
+   a file ".goit/a\nb" (which only the user can have created: none of Goit's
+   own files has a newline in its name) is skipped by `add .` like everything
+   else below .goit/.  Before that repair this very history staged it. *)
 Definition c17_nl_path : bytes := str ".goit/a" ++ [c_nl] ++ str "b".
 Definition c17_nl_hist : list action :=
   [ ACmd c17_env CInit;
     AEdit (UWrite c17_nl_path (str "Z"));
     ACmd c17_env (CAdd [str "."]) ].
-Example c17_newline_escapes :
+Example c17_newline_no_longer_escapes :
   Forall action_ok c17_nl_hist /\
   w_coll (run c17_nl_hist w_empty) = false /\
-  tracked (run c17_nl_hist w_empty) c17_nl_path = true /\
-  ign_match [ign_builtin] c17_nl_path = false.
+  file (run c17_nl_hist w_empty) c17_nl_path = Some (str "Z") /\
+  tracked (run c17_nl_hist w_empty) c17_nl_path = false /\
+  paths (idx_of (run c17_nl_hist w_empty)) = [] /\
+  ign_match [ign_builtin] c17_nl_path = true /\
+  goit_path c17_nl_path.
 Proof.
   split.
   - unfold c17_nl_hist. repeat (apply Forall_cons || apply Forall_nil); cbn [action_ok edit_ok]; try exact Logic.I.
     all: unfold valid_comp; vm_compute; intuition discriminate.
-  - split; [vm_compute; reflexivity|]. split; vm_compute; reflexivity.
+  - repeat (split; [vm_compute; reflexivity|]).
+    exact (goit_path_top (str "a" ++ [c_nl] ++ str "b")).
+Qed.
+
+(* and the general theorem says so for that path, in any world *)
+Example c17_newline_theorem_applies : forall e args w w' o tr,
+  Canonical (idx_of w) -> step (ACmd e (CAdd args)) w = (w', o, tr) ->
+  staged w' c17_nl_path = staged w c17_nl_path \/ staged w' c17_nl_path = None.
+Proof.
+  intros e args w w' o tr Hc Hstep.
+  exact (proj1 (add_step_never_stages_excluded e args w w' o tr Hc Hstep) c17_nl_path
+           (goit_path_top (str "a" ++ [c_nl] ++ str "b"))).
 Qed.
 
 (* ================================================================== *)
@@ -1651,4 +1676,7 @@ Print Assumptions c17_reachable.
 Print Assumptions c17_status.
 Print Assumptions c17_add_theorem_applies.
 Print Assumptions c17_never_overwritten_applies.
-Print Assumptions c17_newline_escapes.
+Print Assumptions c17_newline_no_longer_escapes.
+Print Assumptions c17_newline_theorem_applies.
+Print Assumptions goit_path_iff_builtin.
+Print Assumptions goit_path_iff_under_named.
